@@ -9,6 +9,8 @@ from . import lib
 MODULES = {
     "C01": "predfam", "C09": "predfam", "C10": "predfam",
     "C11": "c11", "C04": "c04", "C15": "c15", "C12": "c12", "C20": "c20",
+    "C05": "c05", "C13": "c13", "C18": "c18", "C06": "c06", "C07": "c07",
+    "C02": "meshfam", "C03": "meshfam", "C08": "meshfam", "C16": "meshfam", "C17": "meshfam", "C14": "c14", "C19": "c19",
 }
 
 
